@@ -74,6 +74,7 @@ pub fn lex_inputs_stage(prop: &str, facet: &str, specs: &[&Spec], seeds: &[(usiz
         .current_dir(&dir)
         .args(["+nightly", "fuzz", "build", "-s", "none", "--fuzz-dir", ".", "lex_inputs"])
         .env("CARGO_NET_OFFLINE", "true")
+        .env("CARGO_TARGET_DIR", verif("work").join("fuzz").join("target"))
         .stdout(Stdio::piped())
         .stderr(Stdio::piped())
         .output();
@@ -111,6 +112,7 @@ pub fn lex_inputs_stage(prop: &str, facet: &str, specs: &[&Spec], seeds: &[(usiz
         .args(["-len_control=0", "-max_len=120", "-timeout=25", "-print_final_stats=1"])
         .arg(format!("-artifact_prefix={}/", artifacts.display()))
         .env("CARGO_NET_OFFLINE", "true")
+        .env("CARGO_TARGET_DIR", verif("work").join("fuzz").join("target"))
         .env("VERIF_FUZZ_FACET", facet)
         .stdout(Stdio::piped())
         .stderr(Stdio::piped())
@@ -186,6 +188,7 @@ pub fn rangemap_stage(runs: u64, max_secs: u64) -> (String, u64, Option<(String,
         .args(["-len_control=0", "-max_len=96", "-print_final_stats=1"])
         .arg(format!("-artifact_prefix={}/", artifacts.display()))
         .env("CARGO_NET_OFFLINE", "true")
+        .env("CARGO_TARGET_DIR", verif("work").join("fuzz").join("target"))
         .stdout(Stdio::piped())
         .stderr(Stdio::piped())
         .output();
